@@ -386,8 +386,8 @@ class Outcome:
             seen.add(path)
             print(f"VIOLATION property={self.prop} replay={path}")
             log(f"  signature: {json.dumps(sig, sort_keys=True)}")
-        if self.harness_errors:
-            for h in self.harness_errors:
-                log(f"HARNESS ERROR: {h}")
-            return 2
-        return 1 if self.violations else 0
+        for h in self.harness_errors:
+            log(f"HARNESS ERROR: {h}")
+        if self.violations:
+            return 1
+        return 2 if self.harness_errors else 0
